@@ -154,7 +154,7 @@ def bridge(rep, idx):
 
 
 # ---- C01.5 ---------------------------------------------------------------------------------------------
-def setters(rep, idx):
+def setters(rep, idx, rule="C01.5", only=None):
     specs = [
         ("csr/bus:Interface.memory_map", ["memory_map.addr_width != self.addr_width", "memory_map.data_width != self.data_width"]),
         ("wishbone/bus:Interface.memory_map", ["memory_map.data_width != self.granularity",
@@ -162,6 +162,8 @@ def setters(rep, idx):
     ]
     from .common import refuses
     for spec, tests in specs:
+        if only is not None and not spec.startswith(only):
+            continue
         fi = idx.find_func(spec, "setter")
         c = get_fn(idx, spec, "setter")
         site = fi.site
@@ -170,17 +172,17 @@ def setters(rep, idx):
         g = fg.g
         store = [n.id for n in g.nodes if n.kind == "stmt" and isinstance(n.ast, ast.Assign) and fg.text(n.id).startswith("self._memory_map =")]
         if len(store) != 1:
-            rep.unk("C01.5", site, "self._memory_map = memory_map", f"{len(store)} store(s)")
+            rep.unk(rule, site, "self._memory_map = memory_map", f"{len(store)} store(s)")
             continue
         for t_, exc in [("not isinstance(memory_map, MemoryMap)", "TypeError")] + [(x, "ValueError") for x in tests]:
             ok, detail = refuses(c, t_, exc)
-            rep.check(ok, "C01.5", site, f"setter refuses a map unless not ({t_})",
+            rep.check(ok, rule, site, f"setter refuses a map unless not ({t_})",
                       detail + ": bus and map geometry could disagree")
         # every raise point (own or in a validation helper) comes before the store
         after = g.reachable([store[0]])
         late = [n.id for n in g.nodes if n.id in after and n.id != store[0] and fg.raises(n.id)]
-        rep.check(not late, "C01.5", site, "every refusal precedes the store", f"raise reachable after the store at line(s) {[g.nodes[x].lineno for x in late]}")
-        rep.check(c.stores.get("self._memory_map", (None,))[0] == ('name', 'memory_map'), "C01.5", site, "the map stored is the map checked",
+        rep.check(not late, rule, site, "every refusal precedes the store", f"raise reachable after the store at line(s) {[g.nodes[x].lineno for x in late]}")
+        rep.check(c.stores.get("self._memory_map", (None,))[0] == ('name', 'memory_map'), rule, site, "the map stored is the map checked",
                   "stored value differs", nontrivial=False)
 
 
